@@ -53,6 +53,7 @@ structure Mon where
   logs   : List ((String × String) × List String) := []    -- ground truth: appended payloads per (session, stream)
   idmap  : List ((String × String) × String) := []         -- (session, event id) ↦ payload
   posts  : List ((String × String) × Nat) := []            -- (session, stream) ↦ POST exchange that created it
+  gone   : List String := []                                -- sessions that were deleted / killed
   viol   : Option String := none
 
 structure DState where
@@ -758,6 +759,20 @@ def Mon.onRecord (m : Mon) (d : DState) (toks : List String) (impl : String) : M
                                    | _ => pure ()
         | _, xk :: ev :: more => m := m.onEvent store jsonMode (parseX xk) true ("!".intercalate (ev :: more))
         | _, _ => pure ()
+    -- pass 4b: a response that the handler produced must not vanish
+    match toks with
+    | "init" :: _ :: _ =>
+      let id := (kvGet toks "id").getD "0"
+      if !(itoks.any fun t => t.endsWith s!"/R.{id}.init" || t.endsWith s!",R.{id}.init") then
+        m := m.fail "C10: the initialize response was not written to the exchange of its request"
+    | ["resp", n, r, x] =>
+      if store && n.startsWith "s" && !m.gone.contains n then
+        let p := ".".intercalate ["R", r, n, r, x]
+        if !(itoks.any fun t => t.startsWith s!"a:{n}:" && t.endsWith (":" ++ p)) then
+          m := m.fail "C10: a response produced by the handler reached neither an exchange nor the store (lost)"
+    | ["delete", n] => m := { m with gone := m.gone ++ [n] }
+    | ["kill", n] => m := { m with gone := m.gone ++ [n] }
+    | _ => pure ()
     -- pass 5: quiescent-state checks (C08 only with a store, protocol < 2026-07-28)
     if store then
       -- (a) a resume must replay everything after Last-Event-ID
@@ -821,7 +836,10 @@ def engine (prop : String) : Engine DState where
           " ".intercalate (pre ++ endTxt ++ post)
         let model := body ++ o.tail
         let m := d.mon.onRecord dn toks impl
-        ({ dn with mon := m }, { model := model, violated := restrictTo prop m.viol })
+        let crashed := impl.startsWith "panic" || (words impl).contains "w=panic" || (impl.splitOn "PANIC").length > 1
+        let viol := if crashed then some ((if prop == "" then "C08" else prop) ++ ": the server panicked while handling this operation")
+                    else restrictTo prop m.viol
+        ({ dn with mon := m }, { model := model, violated := viol })
 
 end Resume
 
